@@ -198,13 +198,18 @@ class Prop:
     required_theorems = ['helper_mode_entry_arms_timer', 'drop_never_leaves_helper_mode', 'stale_implies_timer_or_eor', 'phase_timer_consistency', 'failed_reconnect_keeps_timer', 'no_llgr_dropped_at_llgr_start', 'no_llgr_dropped_at_llgr_only_drop', 'fresh_routes_survive_purge', 'live_session_routes_survive_purge', 'purged_by_expiry_or_eor', 'non_negotiated_families_dropped_at_once', 'non_gr_reasons_retain_nothing', 'eligibility_is_as_stated',
                          'stale_implies_timer_or_eor_two_connections', 'second_connection_does_not_suppress_helper_mode']
     correspondence_name = ('Model/Gr.v gr_step vs daemon/src/gr.rs GrState::process (harness/daemon/gr_hx.rs); '
-                           'Model/Gr.v h_step vs apply_disconnect / process_effects / timer handlers / unregister_peer on a real '
+                           'Model/Gr.v h_step / c_step vs apply_disconnect / process_effects / timer handlers / unregister_peer on a real '
                            'PeerContext + TableManager (harness/daemon/event_gr_hx.rs)')
     rule = ('pure machine: every input sequence of length <= d over a 13-letter alphabet (2 families, GR/LLGR parameter classes) '
             'plus seeded random sequences; glue: seeded random event histories of one peer (up with derived local/remote GR and LLGR '
             'capabilities, announce with two path ids per prefix, eor, down with each reason class, failed connect, timer expiries, '
             'force-down, admin-down), including reconnects that do / do not re-negotiate GR/LLGR, GR/LLGR families outside each other '
-            'and outside the session families; a case is non-trivial when a route is retained stale at some step; '
+            'and outside the session families; enumerated histories with a second connection of the same neighbour in the other slot '
+            'of the ConnArbiter (first session in either slot) around the drop of the Established GR/LLGR session: open and still in '
+            'OpenSent when the session drops, ending afterwards in OpenSent / OpenConfirm, ending before the drop, losing the collision '
+            'against the Established session, reaching Established after the drop with the same GR / without GR / with a GR subset / '
+            'during the LLGR period, forced down together, admitted before admin-down; plus a random mode with such events; '
+            'a case is non-trivial when a route is retained stale at some step; '
             'distinct = distinct observation trajectories')
     exhaustive = {'quick': True, 'thorough': True}
     trusted_base = ['every session of a glue history is a real PeerSession::run() (session_loop with its select loop and its '
@@ -216,7 +221,11 @@ class Prop:
                     'session\'s close channel, a prefix limit of 0 on a never-announced family for the local Cease',
                     'every session is built by the real accept_connection() from the Peer record (Global::add_peer) of the address '
                     'the connection comes from, which also registers its close channel with the ConnArbiter and refuses an admin-down peer '
-                    'or a second connection; force_down() therefore closes a live session for real',
+                    'or a second connection of the same role; force_down() therefore closes a live session for real',
+                    'a second connection of the neighbour is a second real accept_connection() / PeerSession::run() with the other Role '
+                    'on its own loopback socket while the first one is registered: both slots of the real ConnArbiter / PeerFsm are in use, '
+                    'the collision is resolved by the real PeerFsm::check_collision, each connection ends through its own session_loop / '
+                    'apply_disconnect',
                     'hand-built by the harness: before each connection the local capabilities of the case are written into '
                     'Peer.config.local_cap and a PeerFsm sending them is put into the PeerContext (they differ from session to session; the '
                     'daemon derives them once from the configuration); the admin_down field is set directly on the Peer record (not '
@@ -227,7 +236,9 @@ class Prop:
                     'timers are fired through their oneshot sender (the RunNow path); a timer counts as armed while its sender is '
                     'present and not closed; wall-clock expiry of the restart / LLGR timers is not exercised (the hold timer is: really waited for)']
     assumptions = ['one peer, one shard; the restarting-speaker role (selection_deferral) is inactive',
-                   'at most one Established session at a time (property C07)',
+                   'at most one Established session at a time (property C07); at most one further connection of the same neighbour, '
+                   'which is before Established; no new connection of the first role is opened while the second one is pending '
+                   '(two pending connections and their OpenConfirm / OpenConfirm collision are C07\'s)',
                    'a route is identified by (family, prefix, path id); attributes other than the NO_LLGR / LLGR_STALE communities, '
                    'best-path order and distribution to other peers are outside the model']
 
